@@ -11,6 +11,7 @@ package proto
 // corresponding clauses in its own terms (nrows := len(c), len(c.Pos), len(c.Offsets), ...).
 
 //@ ghost field (ColumnOf) nrows Int
+//@ ghost field (ColumnOf) vals Arr_U_T
 //@ ghost field (Column) nrows Int
 //@ ghost field (ColResult) nrows Int
 //@ ghost field (ColInput) nrows Int
@@ -22,21 +23,23 @@ package proto
 //@   ensures c.nrows == 0
 //@ interface ColumnOf.DecodeColumn(c, r, rows) (err)
 //@   requires r != nil && c.nrows == 0 && 0 <= rows && rows <= maxRowsInBLock
-//@   modifies c.nrows, r.pos, r.failed, r.b.Buf
+//@   modifies c.nrows, c.vals, r.pos, r.failed, r.b.Buf
 //@   ensures err == nil ==> c.nrows == rows
 //@   ensures err == nil ==> r.failed == old(r.failed)
 //@   ensures old(r.pos) <= r.pos && r.pos <= r.end
 //@ interface ColumnOf.Row(c, i) (v)
 //@   requires 0 <= i && i < c.nrows
+//@   ensures v == c.vals[i]
 //@ interface ColumnOf.EncodeColumn(c, b)
 //@   requires b != nil
 //@   modifies b.Buf
 //@   ensures appendsOnly(b)
 //@ interface ColumnOf.Append(c, v)
-//@   modifies c.nrows
+//@   modifies c.nrows, c.vals
 //@   ensures c.nrows == old(c.nrows) + 1
+//@   ensures c.vals[old(c.nrows)] == v && forall k in 0..old(c.nrows) :: c.vals[k] == old(c.vals[k]) {appends-one-value-keeps-the-rest}
 //@ interface ColumnOf.AppendArr(c, vs)
-//@   modifies c.nrows
+//@   modifies c.nrows, c.vals
 //@   ensures c.nrows == old(c.nrows) + len(vs)
 
 //@ interface Column.Rows(c) (n)
@@ -96,7 +99,7 @@ package proto
 
 //@ contract (c *ColArr) DecodeColumn(r, rows) (err) props(C01,C06,C07,C16)
 //@   requires c != nil && r != nil && len(c.Offsets) == 0 && c.Data.nrows == 0 && 0 <= rows && rows <= maxRowsInBLock
-//@   modifies c.Offsets, c.Data.nrows, r.pos, r.failed, r.b.Buf
+//@   modifies c.Offsets, c.Data.nrows, c.Data.vals, r.pos, r.failed, r.b.Buf
 //@   ensures err == nil ==> len(c.Offsets) == rows {rows}
 //@   ensures err == nil ==> wfArr(c) {offsets-consistent}
 //@   ensures err == nil ==> r.failed == old(r.failed)
@@ -123,7 +126,7 @@ package proto
 //@   ensures len(c.Offsets) == 0 && c.Keys.nrows == 0 && c.Values.nrows == 0 {empty-after-reset}
 //@ contract (c *ColMap) DecodeColumn(r, rows) (err) props(C01,C06,C07,C16)
 //@   requires c != nil && r != nil && len(c.Offsets) == 0 && c.Keys.nrows == 0 && c.Values.nrows == 0 && 0 <= rows && rows <= maxRowsInBLock
-//@   modifies c.Offsets, c.Keys.nrows, c.Values.nrows, r.pos, r.failed, r.b.Buf
+//@   modifies c.Offsets, c.Keys.nrows, c.Keys.vals, c.Values.nrows, c.Values.vals, r.pos, r.failed, r.b.Buf
 //@   ensures err == nil ==> len(c.Offsets) == rows {rows}
 //@   ensures err == nil ==> wfMap(c) {offsets-consistent}
 //@   ensures err == nil ==> r.failed == old(r.failed)
@@ -145,7 +148,7 @@ package proto
 //@   ensures len(c.Nulls) == 0 && c.Values.nrows == 0 {empty-after-reset}
 //@ contract (c *ColNullable) DecodeColumn(r, rows) (err) props(C01,C06,C07,C16)
 //@   requires c != nil && r != nil && len(c.Nulls) == 0 && c.Values.nrows == 0 && 0 <= rows && rows <= maxRowsInBLock
-//@   modifies c.Nulls, c.Values.nrows, r.pos, r.failed, r.b.Buf
+//@   modifies c.Nulls, c.Values.nrows, c.Values.vals, r.pos, r.failed, r.b.Buf
 //@   ensures err == nil ==> len(c.Nulls) == rows && c.Values.nrows == rows {rows-aligned}
 //@   ensures err == nil ==> r.failed == old(r.failed)
 //@   ensures old(r.pos) <= r.pos && r.pos <= r.end
@@ -203,6 +206,49 @@ package proto
 //@ loop 0 (values, rangeindex)
 //@   invariant -1 <= rangeindex && rangeindex < len(keys) && len(values) == len(entry(values)) + rangeindex + 1
 
+//@ -- dictionary consistency: every remembered value is stored in the dictionary at its remembered key
+//@ spec func lcKV(c Val) Bool = forall v:U_T :: has(c.kv, v) ==> 0 <= c.kv[v] && c.kv[v] < c.index.nrows && c.index.vals[c.kv[v]] == v
+//@ -- keys denote values: row i is the dictionary entry its key selects
+//@ spec func lcDenotes(c Val, n Int) Bool = forall i in 0..n :: 0 <= c.keys[i] && c.keys[i] < c.index.nrows && c.index.vals[c.keys[i]] == c.Values[i]
+
+//@ contract fillKeys(values, keys) (out) props(C01,C16)
+//@   ensures len(out) == len(values) {length}
+//@ loop 0 (keys, rangeindex)
+//@   invariant -1 <= rangeindex && rangeindex < len(values) && len(keys) == rangeindex + 1
+
+//@ -- Prepare after ANY history (C16: "however many times it was appended to, prepared, encoded or
+//@ -- reset before"): nothing is required of kv, index, keys; afterwards the keys select, in the
+//@ -- dictionary that will be written, exactly the current Values, and the chosen width holds them.
+//@ -- (the row bound: beyond 2^32 distinct values `uint32(n) < math.MaxUint32` truncates n; columns
+//@ -- of that size cannot be built in this sandbox, so the bound is an assumption, not a finding)
+//@ contract (c *ColLowCardinality) Prepare() (err) props(C01,C16)
+//@   requires c != nil && len(c.Values) < 4294967296
+//@   modifies c.keys, c.kv, contents(c.kv), c.index.nrows, c.index.vals, c.key, c.keys8, c.keys16, c.keys32, c.keys64
+//@   ensures err == nil
+//@   ensures len(c.keys) == len(c.Values) {one-key-per-row}
+//@   ensures lcDenotes(c, len(c.Values)) {keys-denote-values}
+//@   ensures c.index.nrows <= len(c.Values) {dictionary-no-larger-than-rows}
+//@   ensures (c.key == KeyUInt8 ==> c.index.nrows <= 256 && len(c.keys8) == len(c.Values)) && (c.key == KeyUInt16 ==> c.index.nrows <= 65536 && len(c.keys16) == len(c.Values)) && (c.key == KeyUInt32 ==> c.index.nrows <= 4294967296 && len(c.keys32) == len(c.Values)) && (c.key == KeyUInt64 ==> len(c.keys64) == len(c.Values)) {key-width-holds-every-key}
+//@   ensures c.key == KeyUInt8 || c.key == KeyUInt16 || c.key == KeyUInt32 || c.key == KeyUInt64 {valid-key-kind}
+//@ loop 0 (last, rangeindex)
+//@   modifies contents(c.keys), contents(c.kv), c.index.nrows, c.index.vals
+//@   invariant -1 <= rangeindex && rangeindex < len(c.Values) && len(c.keys) == len(c.Values)
+//@   invariant 0 <= last && last == c.index.nrows && last <= rangeindex + 1
+//@   invariant c.kv != nil && lcKV(c)
+//@   invariant lcDenotes(c, rangeindex + 1)
+
+//@ contract (c *ColLowCardinality) Reset() props(C16)
+//@   requires c != nil
+//@   modifies c.keys, contents(c.kv), c.keys8, c.keys16, c.keys32, c.keys64, c.Values, c.index.nrows
+//@   ensures len(c.Values) == 0 && len(c.keys) == 0 && len(c.keys8) == 0 && len(c.keys16) == 0 && len(c.keys32) == 0 && len(c.keys64) == 0 && c.index.nrows == 0 {empty-after-reset}
+//@   ensures forall v:U_T :: !has(c.kv, v) {dictionary-map-emptied}
+
+//@ contract (c *ColLowCardinality) Append(v) props(C16)
+//@   requires c != nil
+//@   modifies c.Values
+//@   ensures len(c.Values) == old(len(c.Values)) + 1 && c.Values[old(len(c.Values))] == v {appends-one}
+//@   ensures forall k in 0..old(len(c.Values)) :: c.Values[k] == old(c.Values[k]) {earlier-rows-untouched}
+
 //@ contract (c ColLowCardinality) Rows() (n) props(C01,C06,C16)
 //@   ensures n == len(c.Values)
 //@ contract (c ColLowCardinality) Row(i) (v) props(C06)
@@ -213,7 +259,7 @@ package proto
 //@ contract (c *ColLowCardinality) DecodeColumn(r, rows) (err) props(C01,C06,C07,C16)
 //@   requires c != nil && r != nil && 0 <= rows && rows <= maxRowsInBLock
 //@   requires c.index.nrows == 0 && len(c.Values) == 0 && len(c.keys) == 0 && len(c.keys8) == 0 && len(c.keys16) == 0 && len(c.keys32) == 0 && len(c.keys64) == 0
-//@   modifies c.key, c.keys, c.keys8, c.keys16, c.keys32, c.keys64, c.Values, c.index.nrows, r.pos, r.failed, r.b.Buf
+//@   modifies c.key, c.keys, c.keys8, c.keys16, c.keys32, c.keys64, c.Values, c.index.nrows, c.index.vals, r.pos, r.failed, r.b.Buf
 //@   ensures err == nil ==> len(c.Values) == rows {rows}
 //@   ensures err == nil ==> r.failed == old(r.failed)
 //@   ensures old(r.pos) <= r.pos && r.pos <= r.end
